@@ -436,6 +436,8 @@ class Engine:
                         v = ev(st, regs, I[2])
                         if type(v) is int:
                             fr.prev = fr.blk; fr.blk = I[5].get(v, I[3]); fr.ip = 0; break
+                        if not I[4]:        # a switch with only a default label
+                            fr.prev = fr.blk; fr.blk = I[3]; fr.ip = 0; break
                         fr.ip = ip
                         return E.fork_branch(st, switch_alts(I, v))
                     elif op == 'alloca':
